@@ -1,5 +1,426 @@
+// Package c02: "Compiled code matches definitional semantics; compiler choices are invisible".
+//
+// Layer 1 (model-free, deciding): every generated program P (refjs generator) is instantiated as sloppy/strict
+// global code, function body, direct-eval code and indirect-eval code; rewrites R from a catalogue of
+// semantics-preserving transformations (refjs.Rewriter, R1..R12, singly and in pairs) are applied and goja must show
+// the same event log, completion value and thrown value for P and R(P).
+// Layer 2: the definitional interpreter refjs.Interp must agree with goja on every P in every instantiation.
+// White-box data (VerifProgramDump) is used only as evidence that variant and original compiled differently.
 package c02
 
-import "verif/harness/core"
+import (
+	"fmt"
+	"runtime"
+	"strings"
+	"sync"
 
-func Check() *core.Check { return &core.Check{ID: "C02"} }
+	"verif/harness/core"
+	"verif/harness/refjs"
+)
+
+const (
+	origFuel     = 300000
+	origStack    = 150
+	variantStack = 1500
+)
+
+type caseRec struct {
+	Pinned    string   `json:"pinned,omitempty"`
+	Strict    bool     `json:"strict"`
+	Placement string   `json:"placement,omitempty"`
+	Rewrites  []string `json:"rewrites,omitempty"`
+	Original  string   `json:"original"`
+	Variant   string   `json:"variant,omitempty"`
+	Expected  string   `json:"expected,omitempty"`
+	Observed  string   `json:"observed,omitempty"`
+}
+
+func Check() *core.Check {
+	return &core.Check{
+		ID:    "C02",
+		Level: "exploration",
+		Rule: "case = one program from the refjs generator (tiny name pool, statements <= 40, depth <= 5; sloppy or strict) instantiated as global code, function body, direct-eval code and indirect-eval code; " +
+			"layer 1: 3 variants per program, each 1 or 2 rewrites from the catalogue R1..R12, event log + completion value + thrown value of goja must be equal for original and variant in all 4 placements; " +
+			"layer 2: goja must agree with the definitional interpreter refjs on the original in all 4 placements; " +
+			"non-trivial = a variant's instruction multiset (VerifProgramDump) differs from the original's and the program logged >= 3 events; distinct = distinct program texts",
+		Assumptions: []string{
+			"programs are confined to the refjs subset (DESIGN Appendix A); numbers stay exact integers where the generator can arrange it",
+			"a run that observes engine-defined text (Function.prototype.toString / Error.prototype.toString, trapped by the harness), exhausts the fuel in the original, or overflows the call stack in the original is inconclusive",
+			"the neighbourhoods of the listed known findings are excluded from the generator (see known-findings.d/C02.json)",
+		},
+		Cases: func(tier string) int {
+			if tier == "thorough" {
+				return 400000
+			}
+			return 30000
+		},
+		MinConclusive: func(tier string) int { return 2000 },
+		NumPinned:     len(pinned),
+		CaseTimeoutS:  60,
+		Run:           run,
+	}
+}
+
+// ---- executing and comparing
+
+type exec struct {
+	c     *core.Ctx
+	st    *core.Stats
+	cover bool
+}
+
+func (x *exec) runOrig(src string) *Obs {
+	o := RunGoja(src, RunOpts{Fuel: origFuel, MaxStack: origStack, Cover: x.cover})
+	x.st.Inc("runs")
+	x.st.Count("vm_steps", o.Steps)
+	for _, t := range o.InstrSet {
+		x.st.SetAdd("instr_types_executed", strings.TrimPrefix(strings.TrimPrefix(t, "*"), "goja."))
+	}
+	return o
+}
+
+func (x *exec) runVariant(src string, orig *Obs) *Obs {
+	// generous budgets: a rewrite adds a few instructions / frames per executed region at most
+	o := RunGoja(src, RunOpts{Fuel: 20*orig.Steps + 50000, MaxStack: variantStack, Cover: x.cover})
+	x.st.Inc("runs")
+	x.st.Count("vm_steps", o.Steps)
+	for _, t := range o.InstrSet {
+		x.st.SetAdd("instr_types_executed", strings.TrimPrefix(strings.TrimPrefix(t, "*"), "goja."))
+	}
+	return o
+}
+
+// verdict of one comparison
+type cmp struct {
+	monitor      string // "" = held
+	detail       string
+	inconclusive string
+}
+
+func origProblem(o *Obs) (c cmp, stop bool) {
+	switch {
+	case o.Harness != "":
+		return cmp{monitor: "harness-original", detail: "original: " + o.Harness}, true
+	case o.Fuel:
+		return cmp{inconclusive: "fuel-original"}, true
+	case o.Overflow:
+		return cmp{inconclusive: "stack-overflow-original"}, true
+	case o.Tainted != "":
+		return cmp{inconclusive: "engine-defined-text-observed"}, true
+	case strings.HasPrefix(o.Final, "COMPILE"):
+		return cmp{inconclusive: "original-does-not-compile"}, true
+	}
+	return cmp{}, false
+}
+
+func compareObs(orig, v *Obs) cmp {
+	switch {
+	case v.Harness != "":
+		return cmp{monitor: "harness-variant", detail: "variant: " + v.Harness}
+	case v.Fuel:
+		return cmp{monitor: "variant-hangs", detail: fmt.Sprintf("original finished after %d instructions, variant exceeded %d", orig.Steps, 20*orig.Steps+50000)}
+	case v.Overflow:
+		return cmp{monitor: "variant-overflows", detail: fmt.Sprintf("original finished within %d frames, variant exceeded %d", origStack, variantStack)}
+	case v.Tainted != "":
+		return cmp{inconclusive: "engine-defined-text-observed-variant"}
+	case strings.HasPrefix(v.Final, "COMPILE"):
+		return cmp{monitor: "variant-does-not-compile", detail: "original ran (" + orig.Final + "), variant: " + v.Final}
+	}
+	if !orig.Same(v) {
+		return cmp{monitor: "rewrite-pair", detail: "original vs variant: " + Diff(orig, v)}
+	}
+	return cmp{}
+}
+
+// ---- variants
+
+var rewriteWeights = []int{0, 10, 9, 9, 7, 7, 8, 12, 9, 8, 7, 7, 5} // index = RewriteKind
+
+func pickKinds(r *core.Rng) []refjs.RewriteKind {
+	n := 1
+	if r.Chance(40, 100) {
+		n = 2
+	}
+	var ks []refjs.RewriteKind
+	for i := 0; i < n; i++ {
+		ks = append(ks, refjs.RewriteKind(r.PickW(rewriteWeights)))
+	}
+	return ks
+}
+
+// applyAll applies the rewrites in sequence; inapplicable ones are skipped. Returns nil if none applied.
+func applyAll(p *refjs.Node, kinds []refjs.RewriteKind, seed uint64, st *core.Stats) (*refjs.Node, []string) {
+	rw := &refjs.Rewriter{R: core.NewRng(seed)}
+	q := p
+	var descs []string
+	for _, k := range kinds {
+		n, d, ok := rw.Apply(q, k)
+		if !ok {
+			if st != nil {
+				st.Inc("rw_inapplicable:" + k.String())
+			}
+			continue
+		}
+		if st != nil {
+			st.Inc("rw_applied:" + k.String())
+		}
+		q = n
+		descs = append(descs, d)
+	}
+	if len(descs) == 0 {
+		return nil, nil
+	}
+	return q, descs
+}
+
+type variant struct {
+	kinds []refjs.RewriteKind
+	seed  uint64
+	q     *refjs.Node
+	descs []string
+}
+
+func render(p *refjs.Node, pl refjs.Placement, alt bool) string {
+	return refjs.Print(refjs.Instantiate(p, pl, alt))
+}
+
+var oneProc sync.Once
+
+func run(c *core.Ctx) core.Result {
+	// one OS thread per worker process: the workload is allocation-heavy (a fresh Runtime per execution) and the
+	// parallel collector of 16 workers x 16 threads only fights over locks
+	oneProc.Do(func() { runtime.GOMAXPROCS(1) })
+	if c.Index < 0 {
+		return runPinned(c)
+	}
+	r := c.Rng
+	st := c.Stats
+	strict := r.Bool()
+	alt := r.Bool()
+	g := refjs.NewGen(r.Fork(), refjs.GenOpts{Strict: strict, VarOverPatternParam: noExclusions})
+	P := g.Program()
+	if strict {
+		P.F |= refjs.FStrict
+	}
+	srcP := refjs.Print(P)
+	res := core.Result{Verdict: core.Held, Key: srcP}
+	x := &exec{c: c, st: st, cover: c.Index%8 == 0}
+	st.Inc("programs")
+	if strict {
+		st.Inc("programs_strict")
+	}
+	if c.Replay {
+		fmt.Printf("--- program (strict=%v) ---\n%s\n--- end ---\n", strict, srcP)
+	}
+
+	// originals in all placements
+	var orig [refjs.NumPlacements]*Obs
+	var origSrc [refjs.NumPlacements]string
+	usable := 0
+	maxEvents := 0
+	for pl := refjs.Placement(0); pl < refjs.NumPlacements; pl++ {
+		inst := refjs.Instantiate(P, pl, alt)
+		if id := knownNeighbourhood(inst); id != "" {
+			st.Inc("excluded_known:" + id)
+			continue
+		}
+		origSrc[pl] = refjs.Print(inst)
+		o := x.runOrig(origSrc[pl])
+		orig[pl] = o
+		st.Inc("instantiations:" + pl.String())
+		pc, stop := origProblem(o)
+		if pc.monitor != "" {
+			return violation(c, P, nil, pl, alt, pc, o, nil)
+		}
+		if stop {
+			st.Inc("original_unusable:" + pc.inconclusive)
+			orig[pl] = nil
+			continue
+		}
+		usable++
+		if len(o.Events) > maxEvents {
+			maxEvents = len(o.Events)
+		}
+		st.Count("events_original", int64(len(o.Events)))
+		switch {
+		case strings.HasPrefix(o.Final, "RET"):
+			st.Inc("final:RET")
+		case strings.HasPrefix(o.Final, "THROW E:"):
+			st.Inc("final:" + o.Final)
+		default:
+			st.Inc("final:THROW value")
+		}
+		// determinism self-check on 1 % of the executions
+		if r.Chance(1, 100) {
+			o2 := x.runOrig(origSrc[pl])
+			st.Inc("determinism_rechecks")
+			if !o.Same(o2) {
+				return violation(c, P, nil, pl, alt, cmp{monitor: "nondeterministic", detail: "two runs of the same text differ: " + Diff(o, o2)}, o, o2)
+			}
+		}
+	}
+	if usable == 0 {
+		return core.Result{Verdict: core.Inconclusive, Monitor: "no-usable-placement", Key: srcP}
+	}
+
+	// layer 2: definitional interpreter
+	if r2 := layer2(c, x, P, alt, orig[:]); r2 != nil {
+		return *r2
+	}
+	if !enableL1 {
+		return res
+	}
+
+	// layer 1: rewrite pairs
+	msP, _ := InstrMultiset(srcP, strict)
+	differing := false
+	for v := 0; v < 3; v++ {
+		vr := variant{kinds: pickKinds(r), seed: r.U64()}
+		vr.q, vr.descs = applyAll(P, vr.kinds, vr.seed, st)
+		if vr.q == nil {
+			st.Inc("variants_none_applicable")
+			continue
+		}
+		st.Inc("variants")
+		if len(vr.descs) > 1 {
+			st.Inc("variants_pairs")
+		}
+		srcQ := refjs.Print(vr.q)
+		msQ, names := InstrMultiset(srcQ, strict)
+		for _, nme := range names {
+			st.SetAdd("instr_types_compiled", nme)
+		}
+		if msQ != "" && msQ != msP {
+			st.Inc("variants_bytecode_differs")
+			differing = true
+		} else if msQ == msP {
+			st.Inc("variants_bytecode_same")
+		}
+		for pl := refjs.Placement(0); pl < refjs.NumPlacements; pl++ {
+			if orig[pl] == nil {
+				continue
+			}
+			vinst := refjs.Instantiate(vr.q, pl, alt)
+			if id := knownNeighbourhood(vinst); id != "" {
+				st.Inc("excluded_known:" + id)
+				continue
+			}
+			vo := x.runVariant(refjs.Print(vinst), orig[pl])
+			pc := compareObs(orig[pl], vo)
+			st.Inc("pairs_compared")
+			st.Count("events_compared", int64(len(orig[pl].Events)))
+			if pc.inconclusive != "" {
+				st.Inc("pair_inconclusive:" + pc.inconclusive)
+				continue
+			}
+			if pc.monitor != "" {
+				return violation(c, P, &vr, pl, alt, pc, orig[pl], vo)
+			}
+		}
+	}
+	res.NonTrivial = differing && maxEvents >= 3
+	if res.NonTrivial && st.WantSample() && c.Index%97 == 0 {
+		st.Sample(map[string]any{"strict": strict, "program": core.Trunc(srcP, 1500), "events_global": len(orig[0].Events)})
+	}
+	return res
+}
+
+// ---- violations: minimise, then report
+
+func violation(c *core.Ctx, P *refjs.Node, vr *variant, pl refjs.Placement, alt bool, pc cmp, o, vo *Obs) core.Result {
+	strict := P.Has(refjs.FStrict)
+	if vr != nil && c.Index >= 0 {
+		P, vr = minimise(P, vr, pl, alt, pc.monitor)
+		// recompute the observations of the minimised witness
+		x := &exec{c: c, st: core.NewStats()}
+		o = x.runOrig(render(P, pl, alt))
+		vo = x.runVariant(render(vr.q, pl, alt), o)
+		if pc2 := compareObs(o, vo); pc2.monitor != "" {
+			pc = pc2
+		}
+	}
+	rec := caseRec{Strict: strict, Placement: pl.String(), Original: render(P, pl, alt)}
+	sig := "C02|" + pl.String() + "|" + refjs.PrintFlat(refjs.Instantiate(P, pl, alt))
+	if vr != nil {
+		rec.Rewrites = vr.descs
+		rec.Variant = render(vr.q, pl, alt)
+		sig += "|" + refjs.PrintFlat(refjs.Instantiate(vr.q, pl, alt))
+	}
+	if o != nil {
+		rec.Expected = core.Trunc(o.String(), 1500)
+	}
+	if vo != nil {
+		rec.Observed = core.Trunc(vo.String(), 1500)
+	}
+	detail := pc.detail + "\n--- original (" + pl.String() + ") ---\n" + rec.Original
+	if vr != nil {
+		detail += "\n--- variant " + strings.Join(vr.descs, " + ") + " ---\n" + rec.Variant
+	}
+	return core.Result{Verdict: core.Violated, NonTrivial: true, Key: refjs.Print(P), Monitor: pc.monitor, Detail: detail, Signature: sig, Case: rec}
+}
+
+// still reports whether (P, rewrites) is still a violation of the same monitor in the placement.
+func still(P *refjs.Node, kinds []refjs.RewriteKind, seed uint64, pl refjs.Placement, alt bool, monitor string, budget *int) (*variant, bool) {
+	if *budget <= 0 {
+		return nil, false
+	}
+	*budget--
+	q, descs := applyAll(P, kinds, seed, nil)
+	if q == nil || knownNeighbourhood(refjs.Instantiate(q, pl, alt)) != "" || knownNeighbourhood(refjs.Instantiate(P, pl, alt)) != "" {
+		return nil, false
+	}
+	x := &exec{st: core.NewStats()}
+	o := x.runOrig(render(P, pl, alt))
+	if _, stop := origProblem(o); stop {
+		return nil, false
+	}
+	vo := x.runVariant(render(q, pl, alt), o)
+	if pc := compareObs(o, vo); pc.monitor == monitor {
+		return &variant{kinds: kinds, seed: seed, q: q, descs: descs}, true
+	}
+	return nil, false
+}
+
+func minimise(P *refjs.Node, vr *variant, pl refjs.Placement, alt bool, monitor string) (*refjs.Node, *variant) {
+	budget := 300
+	// fewer rewrites first
+	if len(vr.kinds) > 1 {
+		for i := range vr.kinds {
+			if v2, ok := still(P, vr.kinds[i:i+1], vr.seed, pl, alt, monitor, &budget); ok {
+				vr = v2
+				break
+			}
+		}
+	}
+	seeds := []uint64{vr.seed, vr.seed + 1, vr.seed + 2, vr.seed + 3}
+	try := func(cand *refjs.Node) bool {
+		if cand == nil {
+			return false
+		}
+		for _, s := range seeds {
+			if v2, ok := still(cand, vr.kinds, s, pl, alt, monitor, &budget); ok {
+				P, vr = cand, v2
+				return true
+			}
+		}
+		return false
+	}
+	for progress := true; progress && budget > 0; {
+		progress = false
+		for k := refjs.CountStmts(P) - 1; k >= 0 && budget > 0; k-- {
+			if try(refjs.DeleteStmt(P, k)) || try(refjs.UnwrapStmt(P, k)) {
+				progress = true
+			}
+		}
+	}
+	for k := 0; k < 60 && budget > 0; k++ {
+		cand := refjs.SimplifyExpr(P, k)
+		if cand == nil {
+			break
+		}
+		if try(cand) {
+			k--
+		}
+	}
+	return P, vr
+}
